@@ -119,3 +119,42 @@ Theorem C01_compile_correct_int_example :
   fst (run_x86 10 1000 ex_named_code [6; 0]) = ([(true, 7); (false, 49)], OExit 7).
 Proof. exact ex_named_hypotheses. Qed.
 Print Assumptions C01_compile_correct_int_example.
+
+(* The x86-64 link discharged for the CLOSURE fragment (Props/C06.v, C06_codegen_simulates_cf): the linearized
+   program uses only integers and closures without captured variables (`cf_frag`: Substitute / Call / Literal /
+   Op / PrintI64 / IfC / Exit / Create with an empty environment / Invoke) - the shape of first-order
+   tail-recursive integer programs, whose calls pass the return continuation as such a closure; the entry
+   definition takes integers; names of definitions and types do not start with '#'; the emitted code passes
+   asm_wf and is smaller than 2^62 - 2^30 bytes. *)
+From SCC Require Import Proof.X86SimAddr Proof.X86SimClo Proof.X86SimProgC Proof.X86SimTopC.
+Theorem C01_compile_correct_cf_partial :
+  H_fun2core -> H_focus -> H_shrink ->
+  forall (p : fcprog) (c : cprog) (f : fsprog) (a : prog) (cs : list xcode) (nargs : nat) (lc lc' : N)
+         (args : list Z) (n : nat) (o : obs),
+    annotated_fcprog p = true -> effect_sequenced p = true -> barendregt p = true ->
+    compile_prog p = Fun2Core.Ok c -> pre_check c = true -> focus_wf c = true ->
+    focus_prog c = Backend.Ok f -> shrink_prog f = SOk a -> prog_ok a = true ->
+    x86_compile (linearize a) lc = Backend.Ok (cs, nargs, lc') ->
+    cf_frag (linearize a) = true -> entry_int (linearize a) = true ->
+    plain_names (linearize a) = true -> plain_types (linearize a) = true ->
+    asm_wf cs = None -> code_small cs = true ->
+    run_fun n p args = o -> out_ok o ->
+    (exists outer inner, fst (run_x86 outer inner cs args) = o) /\
+    (Forall (fun pz => in_i64 (snd pz)) (fst o) ->
+     bytes_of_string (render_prints (fst o)) = flat_map runtime_bytes (fst o)).
+Proof. exact compile_correct_cf_partial. Qed.
+Print Assumptions C01_compile_correct_cf_partial.
+
+(* the x86-side hypotheses of C01_compile_correct_cf_partial are met by the linearizer's output for the AxCut
+   program of the shape `shrink` produces for  def f(x, acc) { if x == 0 { acc } else { f(x - 1, acc + x) } }
+   def main(x) { f(x, 0) },  and the emitted code computes what the named machine computes *)
+From SCC Require Import Proof.X86SimExampleC.
+Theorem C01_compile_correct_cf_example :
+  prog_ok exc_named = true /\ cf_frag (linearize exc_named) = true /\ entry_int (linearize exc_named) = true /\
+  plain_names (linearize exc_named) = true /\ plain_types (linearize exc_named) = true /\
+  (exists n lc', x86_compile (linearize exc_named) 0 = Backend.Ok (exc_named_code, n, lc')) /\
+  asm_wf exc_named_code = None /\ code_small exc_named_code = true /\
+  run_named 100 exc_named [10] = ([], OExit 55) /\
+  fst (run_x86 10 2000 exc_named_code [10]) = ([], OExit 55).
+Proof. exact exc_named_hypotheses. Qed.
+Print Assumptions C01_compile_correct_cf_example.
